@@ -80,6 +80,10 @@ class Guard:
                 warnings.simplefilter("always")
                 v = fn(*a, **kw)
             return True, v, [str(x.message) for x in w]
+        except NotExact as ex:
+            # the real object holds a number the exact model cannot hold (not a Gaussian integer / quarter): an exact input went in
+            self.violation(f"{site}:not_exact", dict(detail, problem=str(ex)))
+            return False, None, []
         except Exception as ex:
             where = library_site(ex)
             if where is None:
